@@ -121,7 +121,10 @@ RULE = ("one stratum per native strategy (CMA-ES, sep-CMA-ES, LM-MA-ES, OpenAI-E
         "the thorough tier), then a history of ask/tell iterations with a uniformly random ranking permutation and a "
         "parent count drawn from 0..batch (0, 1, batch//2 and batch over-weighted), 30 % of the histories ranked by a "
         "fixed linear objective instead (drives the paths one way: hsig = 0, growing sigma, check_stop), interleaved "
-        "resets. Every case keeps ONE caller-side x0 / theta0 object (70 % an ndarray of exactly the optimizer's dtype, "
+        "resets. sigma0 is passed as a python float, np.float64, 0-d float64 ndarray (any dtype) or np.float32 / 0-d "
+        "float32 ndarray (float32 optimizers), the caller keeps the object: it must stay bit-identical and es.sigma0 "
+        "must keep the configured value after every reset, ask/tell and check_stop, and after reset the step size is "
+        "the configured sigma0 again. Every case keeps ONE caller-side x0 / theta0 object (70 % an ndarray of exactly the optimizer's dtype, "
         "else a strided view, list, tuple or wider float array): it is handed to the constructor (gradient optimizers: "
         "in 30 % of the cases to two optimizers) and to 70-75 % of the later resets as the identical object, it is "
         "checksummed around every call, and after each reset all public state must equal a fresh instance built from an "
@@ -467,13 +470,70 @@ def with_supplied(base, sup_tokens):
 # strategies
 
 
-def make_es(case):
+SIGMA0_FORMS = ("float", "f64", "f32", "arr64", "arr32")
+
+
+def sigma0_form(case):
+    """form in which the caller passes sigma0; derived from the case's seed when the case does not name one (the
+    float32 forms only for float32 optimizers, so that the step size keeps the precision the tolerance assumes)"""
+    form = case.get("sigma0_form")
+    if form is None:
+        if "seed" not in case or case.get("kind") in ("lm-degenerate", "pycma-converge"):
+            return "float"
+        k = (int(case["seed"]) * 2654435761 >> 7) % 20
+        form = "float" if k < 7 else "f64" if k < 10 else "arr64" if k < 16 else "arr32" if k < 18 else "f32"
+    if form in ("f32", "arr32") and case.get("dtype") != F32:
+        form = "arr64" if form == "arr32" else "f64"
+    return form
+
+
+def make_sigma0(case):
+    """a new caller-side sigma0 object of the case's form"""
+    v, form = case["sigma0"], sigma0_form(case)
+    return {"float": float, "f64": np.float64, "f32": np.float32, "arr64": lambda x: np.array(x, dtype=np.float64),
+            "arr32": lambda x: np.array(x, dtype=np.float32)}[form](v)
+
+
+def sigma0_value(case):
+    """the configured step size as a float (the float32 forms round the nominal value once)"""
+    return float(make_sigma0(case))
+
+
+def scalar_fingerprint(obj):
+    if isinstance(obj, np.ndarray):
+        return ("arr", str(obj.dtype), obj.shape, obj.tobytes())
+    return (type(obj).__name__, float(obj).hex())
+
+
+class CallerSigma0:
+    """the caller's sigma0 object: it must stay bit-identical to what was passed, and the optimizer's own
+    `sigma0` must keep the configured value, whatever is told"""
+
+    def __init__(self, case):
+        self.obj = make_sigma0(case)
+        self.form = sigma0_form(case)
+        self.fp = scalar_fingerprint(self.obj)
+        self.value = sigma0_value(case)
+
+    def changed(self, es, where, what):
+        if scalar_fingerprint(self.obj) != self.fp:
+            return Failure("oracle", f"{where}: the caller's sigma0 object (passed as {self.form}: "
+                           f"{type(self.obj).__name__} of value {self.value!r}) was modified by {what}: it is now "
+                           f"{float(self.obj)!r}", key="alias-sigma0")
+        cur = getattr(es, "sigma0", None)
+        if cur is not None and float(cur) != self.value:
+            return Failure("oracle", f"{where}: es.sigma0 = {float(cur)!r} after {what}, configured {self.value!r} "
+                           f"(sigma0 passed as {self.form})", key="alias-sigma0")
+        return None
+
+
+def make_es(case, sigma0_obj=None):
     from ribs.emitters.opt import (CMAEvolutionStrategy, LMMAEvolutionStrategy, OpenAIEvolutionStrategy,
                                    SeparableCMAEvolutionStrategy)
     kind = case["kind"]
     dt = NPDT[case["dtype"]]
     lb, ub = ctor_bounds(case, dt)
-    common = dict(sigma0=case["sigma0"], solution_dim=case["dim"], batch_size=case["batch"], seed=case["seed"],
+    common = dict(sigma0=make_sigma0(case) if sigma0_obj is None else sigma0_obj, solution_dim=case["dim"], batch_size=case["batch"], seed=case["seed"],
                   dtype=dt, lower_bounds=lb, upper_bounds=ub)
     if kind == "cma":
         return CMAEvolutionStrategy(**common)
@@ -550,14 +610,16 @@ def run_es_case(case):
     dim, batch = case["dim"], case["batch"]
     enable_numba_cache()
     warnings.simplefilter("ignore")
-    es = make_es(case)
+    sig0 = CallerSigma0(case)  # the caller keeps its sigma0 object, in the form the case says
+    es = make_es(case, sig0.obj)
+    count(f"sigma0-form:{sig0.form}")
     # ONE caller-side x0 object per case: it goes to the first reset and to every later reset marked `same`
     # (and to the resets that follow a check_stop); it is checksummed around every call
     layout = case.get("x0_layout", "exact")
     start = CallerArray(case["x0"], layout, dt)
     x0 = start.fresh_copy(dt)  # independent copy of the original values (never handed to the optimizer under test)
     es.reset(start.obj)
-    f = start.changed("reset#0", "reset")
+    f = start.changed("reset#0", "reset") or sig0.changed(es, "reset#0", "reset")
     if f:
         return f
     shadow = np.random.default_rng(case["seed"])  # same construction as in every __init__
@@ -575,10 +637,16 @@ def run_es_case(case):
         """public state equals a fresh instance reset to an independent copy of the values; model's reset state"""
         fresh = make_es(case)
         fresh.reset(make_start(obj_layout_values, layout, dt))
+        f0 = sig0.changed(es, where, "the history before this reset")
+        if f0:
+            return f0
         d = diff_public(es, fresh)
         if d:
             return fail("oracle", where, f"after reset public attributes differ from a fresh instance built from an "
-                        f"independent copy of the reset point: {d}")
+                        f"independent copy of the reset point (and an independent sigma0 object): {d}")
+        if hasattr(es, "sigma") and float(es.sigma) != sig0.value:
+            return fail("oracle", where, f"after reset the step size is {float(es.sigma)!r}, configured sigma0 = "
+                        f"{sig0.value!r}")
         f2 = check_reset_model(case, es, values, where)
         if f2:
             return f2
@@ -608,13 +676,13 @@ def run_es_case(case):
                 count(f"{kind}:stop-width-guard")
                 return None
             f = es_iteration(case, es, shadow, op, where, kind, dt, tol, dim, batch, lb, ub, lb64, ub64, adam_ref)
-            f = start.changed(where, "ask/tell") or f
+            f = start.changed(where, "ask/tell") or sig0.changed(es, where, "ask/tell") or f
             if f:
                 return f
             # documented protocol: after tell, check_stop(); when it says stop the optimizer is reset
             # (histories that keep going past a stop condition are outside the usage the classes document)
             stop = es.check_stop(np.sort(perm_vals(case, op, batch, 0))[::-1])
-            f = start.changed(where, "check_stop")
+            f = start.changed(where, "check_stop") or sig0.changed(es, where, "check_stop")
             if f:
                 return f
             if stop:
@@ -632,18 +700,18 @@ def run_es_case(case):
 def check_reset_model(case, es, x0, where):
     kind, dim = case["kind"], case["dim"]
     if kind == "cma":
-        r = ask_model(f"reset kind=cma n={dim} sigma0={fq(case['sigma0'])} x0={qv(x0)}")
+        r = ask_model(f"reset kind=cma n={dim} sigma0={fq(sigma0_value(case))} x0={qv(x0)}")
         obs = [("mean", es.mean, pv(r["mean"])), ("sigma", [es.sigma], pv(r["sigma"])),
                ("pc", es.pc, pv(r["pc"])), ("ps", es.ps, pv(r["ps"])),
                ("cov", es.cov.cov, prows(r["cov"], dim)), ("evals", [es.current_eval], [int(r["evals"])])]
     elif kind == "sep":
-        r = ask_model(f"reset kind=sep n={dim} sigma0={fq(case['sigma0'])} x0={qv(x0)}")
+        r = ask_model(f"reset kind=sep n={dim} sigma0={fq(sigma0_value(case))} x0={qv(x0)}")
         obs = [("mean", es.mean, pv(r["mean"])), ("sigma", [es.sigma], pv(r["sigma"])),
                ("pc", es.pc, pv(r["pc"])), ("ps", es.ps, pv(r["ps"])),
                ("cov", es.cov.cov, pv(r["cov"])), ("evals", [es.current_eval], [int(r["evals"])])]
     elif kind == "lm":
         r = ask_model(f"reset kind=lm n={dim} batch={case['batch']} nvec={es.n_vectors} "
-                      f"sigma0={fq(case['sigma0'])} x0={qv(x0)}")
+                      f"sigma0={fq(sigma0_value(case))} x0={qv(x0)}")
         obs = [("mean", es.mean, pv(r["mean"])), ("sigma", [es.sigma], pv(r["sigma"])),
                ("ps", es.ps, pv(r["ps"])), ("m", es.m, prows(r["m"], dim)),
                ("gens", [es.current_gens], [int(r["gens"])])]
@@ -1382,15 +1450,18 @@ def run_pycma_case(case):
     lb, ub = bounds_arrays(case, dt)
     bounded = np.isfinite(lb).any() or np.isfinite(ub).any()
 
+    sig0 = CallerSigma0(case)
+    count(f"sigma0-form:{sig0.form}")
+
     def make():
-        return PyCMAEvolutionStrategy(sigma0=case["sigma0"], solution_dim=dim, batch_size=batch, seed=case["seed"],
+        return PyCMAEvolutionStrategy(sigma0=sig0.obj, solution_dim=dim, batch_size=batch, seed=case["seed"],
                                       dtype=dt, lower_bounds=[None if math.isinf(x) else float(x) for x in lb] if bounded else None,
                                       upper_bounds=[None if math.isinf(x) else float(x) for x in ub] if bounded else None)
     es = make()
     start = CallerArray(case["x0"], case.get("x0_layout", "exact"), np.float64)  # one caller-side x0 object
     x0 = start.fresh_copy(np.float64)
     es.reset(start.obj)
-    f = start.changed("reset#0", "reset")
+    f = start.changed("reset#0", "reset") or sig0.changed(es, "reset#0", "reset")
     if f:
         return f
     center = np.array(case["x0"], dtype=np.float64)
@@ -1401,8 +1472,8 @@ def run_pycma_case(case):
             return None
         if getattr(inner, "countiter", 0) != 0:
             return fail("oracle", where, "iteration counter not zero after reset")
-        if float(inner.sigma) != float(case["sigma0"]):
-            return fail("oracle", where, f"sigma after reset {inner.sigma} != sigma0")
+        if float(inner.sigma) != sig0.value:
+            return fail("oracle", where, f"sigma after reset {inner.sigma} != configured sigma0 {sig0.value!r}")
         if es.batch_size != batch:
             return fail("oracle", where, f"batch_size {es.batch_size} != {batch}")
         mean = getattr(inner, "mean", None)
@@ -1418,12 +1489,12 @@ def run_pycma_case(case):
         if op["op"] == "reset":
             es.reset(start.obj)  # the identical array object, after a history
             center = x0
-            f = start.changed(where, "reset") or check_fresh(where, x0)
+            f = start.changed(where, "reset") or sig0.changed(es, where, "reset") or check_fresh(where, x0)
             if f:
                 return f
             continue
         sols = np.array(es.ask())
-        f = start.changed(where, "ask")
+        f = start.changed(where, "ask") or sig0.changed(es, where, "ask")
         if f:
             return f
         if sols.shape != (batch, dim):
@@ -1442,7 +1513,7 @@ def run_pycma_case(case):
             es.tell(np.argsort(-vals), vals[:, None], int(op["mu"]))
         else:
             es.tell(np.argsort(-vals), vals, int(op["mu"]))
-        f = start.changed(where, "tell")
+        f = start.changed(where, "tell") or sig0.changed(es, where, "tell")
         if f:
             return f
         inner = getattr(es, "_es", None)
